@@ -1,0 +1,47 @@
+//  Copyright (c) 2026 Couchbase, Inc.
+//
+// Licensed under the Apache License, Version 2.0 (the "License");
+// you may not use this file except in compliance with the License.
+// You may obtain a copy of the License at
+//
+// 		http://www.apache.org/licenses/LICENSE-2.0
+//
+// Unless required by applicable law or agreed to in writing, software
+// distributed under the License is distributed on an "AS IS" BASIS,
+// WITHOUT WARRANTIES OR CONDITIONS OF ANY KIND, either express or implied.
+// See the License for the specific language governing permissions and
+// limitations under the License.
+
+//go:build verif
+
+package searcher
+
+// VerifTermRange is one (start, end) pair of prefix coded terms, both inclusive.
+type VerifTermRange struct {
+	Start []byte
+	End   []byte
+}
+
+// VerifSplitInt64Range exposes the unexported numeric range splitter to an
+// external monitor. Only compiled with the "verif" build tag.
+func VerifSplitInt64Range(minBound, maxBound int64, precisionStep uint) []VerifTermRange {
+	trs := splitInt64Range(minBound, maxBound, precisionStep)
+	rv := make([]VerifTermRange, 0, len(trs))
+	for _, tr := range trs {
+		rv = append(rv, VerifTermRange{Start: tr.startTerm, End: tr.endTerm})
+	}
+	return rv
+}
+
+// VerifEnumerateCount returns the number of terms the splitter's ranges
+// enumerate (without a dictionary filter), capped at limit.
+func VerifEnumerateCount(minBound, maxBound int64, precisionStep uint, limit int) int {
+	n := 0
+	for _, tr := range splitInt64Range(minBound, maxBound, precisionStep) {
+		n += len(tr.Enumerate(func([]byte) bool { return true }))
+		if n > limit {
+			return n
+		}
+	}
+	return n
+}
